@@ -197,6 +197,9 @@ where
     #[pin]
     inner: InnerCheckoutConnecting<T, P, B>,
     connection: Option<P::Connection>,
+    /// Did this checkout mark its key as "connecting" in the pool? Only that
+    /// checkout may clear the mark again.
+    marked_connecting: bool,
     meta: ConnectorMeta,
     #[cfg(debug_assertions)]
     id: CheckoutId,
@@ -239,6 +242,7 @@ where
                     waiter: Waiting::NoPool,
                     inner: InnerCheckoutConnecting::ConnectingDelayed(connector.take().unwrap()),
                     connection: None,
+                    marked_connecting: std::mem::take(this.marked_connecting),
                     meta: ConnectorMeta::new(), // New meta to avoid holding spans in the spawned task
                     #[cfg(debug_assertions)]
                     id: *this.id,
@@ -276,6 +280,7 @@ where
             waiter: Waiting::NoPool,
             inner: InnerCheckoutConnecting::Connecting(connector),
             connection: None,
+            marked_connecting: false,
             meta: ConnectorMeta::new(),
             #[cfg(debug_assertions)]
             id,
@@ -288,6 +293,7 @@ where
         waiter: Receiver<Pooled<P::Connection, B>>,
         connect: Option<Connector<T, P, B>>,
         connection: Option<P::Connection>,
+        marked_connecting: bool,
         config: &Config,
     ) -> Self {
         #[cfg(debug_assertions)]
@@ -305,6 +311,7 @@ where
                 waiter: Waiting::Idle(waiter),
                 inner: InnerCheckoutConnecting::Connected,
                 connection,
+                marked_connecting,
                 meta,
                 #[cfg(debug_assertions)]
                 id,
@@ -324,6 +331,7 @@ where
                 waiter: Waiting::Idle(waiter),
                 inner,
                 connection,
+                marked_connecting,
                 meta,
                 #[cfg(debug_assertions)]
                 id,
@@ -336,6 +344,7 @@ where
                 waiter: Waiting::Connecting(waiter),
                 inner: InnerCheckoutConnecting::Waiting,
                 connection,
+                marked_connecting,
                 meta,
                 #[cfg(debug_assertions)]
                 id,
@@ -520,9 +529,12 @@ where
                     tracing::error!(error=%err, "error during delayed drop");
                 }
             });
-        } else if let Some(mut pool) = self.pool.lock() {
-            // Connection is only cancled when no delayed drop occurs.
-            pool.cancel_connection(self.token);
+        } else if self.marked_connecting {
+            // Connection is only cancled when no delayed drop occurs, and only
+            // by the checkout which marked it as in progress.
+            if let Some(mut pool) = self.pool.lock() {
+                pool.cancel_connection(self.token);
+            }
         }
     }
 }
